@@ -45,6 +45,13 @@ def monitor(rep, idx, c):
     L = loops[0]
     sub, k = ('item', L.id, (0,)), ('item', L.id, (1,))
     env = {"sub": sub, "k": k}
+    # event_map.size == 0: the three vectors are declared event_map.size bits wide (checked here) and sources() yields nothing
+    init_fn = c.fi.cls.method("__init__")
+    src_ = ast.unparse(init_fn.node) if init_fn is not None else ""
+    if all(any(f'"{nm}"' in ln_ or f"'{nm}'" in ln_ for ln_ in src_.splitlines() if ".size" in ln_) for nm in ("enable", "pending", "clear")):
+        if not hasattr(c.eng, "size_hints"):
+            c.eng.size_hints = []
+        c.eng.size_hints.append((c.parse("self.src.event_map.size"), [c.parse("self.enable"), c.parse("self.pending"), c.parse("self.clear")], [L.id]))
     members = idx.enums.get("Trigger")
     if not members or set(members) != {"LEVEL", "RISE", "FALL"}:
         rep.unk("C13.1", site, "Source.Trigger members", f"trigger enum is {members}; the role table knows LEVEL/RISE/FALL")
